@@ -30,6 +30,7 @@ import NemoVerif.Lemmas.ErrExtVM
 import NemoVerif.Lemmas.SlideStepVM
 import NemoVerif.Lemmas.ErrHandleVM
 import NemoVerif.Lemmas.ErrReport
+import NemoVerif.Lemmas.ProcessEvents
 
 namespace NemoVerif.C10
 open NemoVerif.SlideGraph NemoVerif.ErrContain NemoVerif.RoundMachine
@@ -1223,3 +1224,175 @@ theorem phased_round_bound (P : RProg) (p : Pot) (hk : potOk P p = true) :
     omega
 
 end NemoVerif.C10.Report
+
+
+/-! ## Wave 6 — the conversion step of `process_events` (`Models/ProcessEvents.lean`)
+
+  Third mechanism of the property's anchors: an exception that LEAVES `run_to_completion()` is converted into a `ColangError` event
+  and fed back into the state machine.  "Reported as a ColangError event" means: an event a flow can match.  That depends on two
+  sites that do not know of each other — the class of the object `process_events` creates, and the class test
+  `isinstance(ref_event, type(event))` of `_compute_event_matching_score` against the reference event `match ColangError()` builds —
+  both extracted as data by `harness/translate/c10_classes.py` (`Generated/C10Classes.lean`).
+
+  "Nothing escapes the conversion loop" is structural in the model (`convertLoop` has no raising outcome: the `except Exception`
+  branch catches every exception of the call); what needs proof is termination of the loop and delivery of the report. -/
+namespace NemoVerif.C10.Convert
+open NemoVerif.ProcessEvents
+
+/-- **`convert_terminates`** (every `run_to_completion`, every state, every event): if the state machine accepts the converted
+    ColangError events (it raises on none of them), the `while new_event is not None` loop ends after at most two calls, and what
+    was handed to `run_to_completion` is the input event, followed — iff it raised — by exactly one event of the converted class
+    carrying the exception's class name. -/
+theorem convert_terminates {σ : Type} (t : Tie) (rtc : Rtc σ)
+    (hacc : ∀ s e, ∃ s', rtc s (convertedEvent t e) = .ok s') (s : σ) (ev : Ev) (fuel : Nat) :
+    ∃ s' l, convertLoop t rtc (fuel + 2) s ev = some (s', l) ∧
+      (l = [ev] ∨ ∃ s1 e, rtc s ev = .raised s1 e ∧ l = [ev, convertedEvent t e] ∧ rtc s1 (convertedEvent t e) = .ok s') := by
+  simp only [convertLoop]
+  cases h : rtc s ev with
+  | ok s1 => exact ⟨s1, [ev], rfl, .inl rfl⟩
+  | raised s1 e =>
+    obtain ⟨s2, h2⟩ := hacc s1 e
+    simp only [h2]
+    exact ⟨s2, [ev, convertedEvent t e], rfl, .inr ⟨s1, e, rfl, rfl, h2⟩⟩
+
+/-- non-vacuity + the hypothesis is needed: a state machine that raises on EVERY event (also on the reports) keeps the loop spinning
+    for every fuel — `runtime.max_events` does not bound this inner loop. -/
+theorem convert_diverges {σ : Type} (t : Tie) (rtc : Rtc σ) (h : ∀ s ev, ∃ s' e, rtc s ev = .raised s' e) :
+    ∀ fuel s ev, convertLoop t rtc fuel s ev = none := by
+  intro fuel
+  induction fuel with
+  | zero => intro s ev; rfl
+  | succ n ih =>
+    intro s ev
+    obtain ⟨s', e, he⟩ := h s ev
+    simp only [convertLoop, he, ih]
+
+theorem obsRtc_converted (t : Tie) (faulty : Ev → Option Nat) (hacc : ∀ e, faulty (convertedEvent t e) = none) (s : ObsState) (e : Nat) :
+    obsRtc t faulty s (convertedEvent t e)
+      = .ok (if t.headMayMatch t.converted then { reactions := s.reactions + 1, delivered := s.delivered + 1 }
+             else { s with delivered := s.delivered + 1 }) := by
+  simp only [obsRtc, hacc]
+  cases h : t.headMayMatch t.converted <;> simp [convertedEvent, h]
+
+/-- **`escaped_error_is_reported`** (every tree `t`, every set of faulty events, every state): if the class test of the matcher lets
+    the reference event of `match ColangError()` match an event of the CONVERTED class, then an input event whose processing raises
+    (outside every try block of the state machine) ends with the activated observer having reacted exactly once, both events delivered,
+    nothing escaping. -/
+theorem escaped_error_is_reported (t : Tie) (faulty : Ev → Option Nat) (hm : t.headMayMatch t.converted = true)
+    (hacc : ∀ e, faulty (convertedEvent t e) = none) (s : ObsState) (ev : Ev) (e : Nat) (hf : faulty ev = some e) (fuel : Nat) :
+    convertLoop t (obsRtc t faulty) (fuel + 2) s ev
+      = some ({ reactions := s.reactions + 1, delivered := s.delivered + 1 }, [ev, convertedEvent t e]) := by
+  have h1 : obsRtc t faulty s ev = .raised s e := by simp [obsRtc, hf]
+  simp only [convertLoop, h1, obsRtc_converted t faulty hacc, hm]
+  simp
+
+/-- the converse (why the hypothesis is THE condition): if the class test rejects the converted class, the report is delivered to
+    nobody — same run, no reaction: the error is swallowed silently. -/
+theorem unmatchable_conversion_is_swallowed (t : Tie) (faulty : Ev → Option Nat) (hm : t.headMayMatch t.converted = false)
+    (hacc : ∀ e, faulty (convertedEvent t e) = none) (s : ObsState) (ev : Ev) (e : Nat) (hf : faulty ev = some e) (fuel : Nat) :
+    convertLoop t (obsRtc t faulty) (fuel + 2) s ev
+      = some ({ reactions := s.reactions, delivered := s.delivered + 1 }, [ev, convertedEvent t e]) := by
+  have h1 : obsRtc t faulty s ev = .raised s e := by simp [obsRtc, hf]
+  simp only [convertLoop, h1, obsRtc_converted t faulty hacc, hm]
+  simp
+
+/-- **the tie** (finite fact about the data the translator extracted from the tree under test, re-checked on every run): the class of
+    the event `process_events` creates is one the reference event of `match ColangError()` is an instance of. -/
+theorem generated_converted_error_is_matchable : generatedTie.headMayMatch generatedTie.converted = true := by decide
+
+/-- the same for the ColangError events the state machine creates itself (three sites) -/
+theorem generated_state_machine_errors_are_matchable :
+    ∀ c ∈ NemoVerif.Generated.C10Classes.stateMachineErrorClasses, generatedTie.headMayMatch c = true := by decide
+
+/-- `escaped_error_is_reported` for the tree under test -/
+theorem generated_escaped_error_is_reported (faulty : Ev → Option Nat) (hacc : ∀ e, faulty (convertedEvent generatedTie e) = none)
+    (s : ObsState) (ev : Ev) (e : Nat) (hf : faulty ev = some e) (fuel : Nat) :
+    convertLoop generatedTie (obsRtc generatedTie faulty) (fuel + 2) s ev
+      = some ({ reactions := s.reactions + 1, delivered := s.delivered + 1 }, [ev, convertedEvent generatedTie e]) :=
+  escaped_error_is_reported generatedTie faulty generated_converted_error_is_matchable hacc s ev e hf fuel
+
+/-- seed C10-e as a theorem: the converted event created as `InternalEvent` (class 1) while `match ColangError()` builds a plain
+    `Event` (class 0) — `isinstance(Event(...), InternalEvent)` is false in the pinned hierarchy: no head may match. -/
+theorem seed_internal_event_counterexample :
+    ({ converted := 1, matchRef := 0, subclass := pinnedSubclass, guard := true } : Tie).headMayMatch 1 = false := by decide
+
+/-- non-vacuity of `escaped_error_is_reported` / `generated_escaped_error_is_reported`: events that are not reports raise `7`
+    (a wrong-typed action parameter, say), reports are accepted; kernel-evaluated run: one reaction, two deliveries -/
+example : convertLoop generatedTie (obsRtc generatedTie (fun ev => if ev.isColangError then none else some 7)) 2 ⟨0, 0⟩ ⟨0, false, 0⟩
+    = some (⟨1, 1⟩, [⟨0, false, 0⟩, ⟨0, true, 7⟩]) := by decide
+
+/-- the same run on the seeded tree: delivered, nobody reacts -/
+example : convertLoop { converted := 1, matchRef := 0, subclass := pinnedSubclass, guard := true }
+    (obsRtc { converted := 1, matchRef := 0, subclass := pinnedSubclass, guard := true } (fun ev => if ev.isColangError then none else some 7))
+    2 ⟨0, 0⟩ ⟨0, false, 0⟩ = some (⟨0, 1⟩, [⟨0, false, 0⟩, ⟨1, true, 7⟩]) := by decide
+
+/-- non-vacuity of `convert_terminates`: the observer machine accepts every report -/
+example : ∀ s e, ∃ s', obsRtc generatedTie (fun ev => if ev.isColangError then none else some 7) s (convertedEvent generatedTie e) = .ok s' := by
+  intro s e
+  exact ⟨_, obsRtc_converted generatedTie _ (by intro e; simp [convertedEvent]) s e⟩
+
+/-- non-vacuity of `convert_diverges` -/
+example : ∀ (s : Nat) (ev : Ev), ∃ s' e, (fun (s : Nat) (_ : Ev) => Outcome.raised s 1) s ev = .raised s' e := fun s _ => ⟨s, 1, rfl⟩
+
+
+/-! ### the repaired guard of `_resolve_action_conflicts` (fixes/C10-escaping-statement-errors.diff; model `guardHeads`)
+
+  On the pinned tree the action event of an actionable head is built INSIDE the conflict resolution, outside every try block: an invalid
+  one (`start UtteranceBotAction(script=3)`) raises there, the round is abandoned and every other pending action is lost (open finding
+  error-raised-while-creating-action-event). The repair validates all heads first; these theorems are about that scan. -/
+
+/-- **every head that reaches the conflict resolution has an action event that can be built**: nothing can raise there any more -/
+theorem guardHeads_survivors_valid (build : AHead → Option Nat) (kills : Nat → List Nat) (hself : ∀ f, f ∈ kills f) (heads : List AHead) :
+    ∀ h ∈ (guardHeads build kills heads).1, build h = none := by
+  intro h hm
+  simp only [guardHeads, List.mem_filter] at hm
+  by_cases hb : build h = none
+  · exact hb
+  · have := failInvalid_invalid_stopped build kills hself heads [] [] h hm.1 hb
+    simp [this] at hm
+
+/-- **a faulty flow fails alone**: a head with a valid action event whose flow is not stopped together with any faulty flow keeps its
+    place (and its order) among the heads handed to the conflict resolution — its pending action is not lost -/
+theorem guardHeads_bystander_kept (build : AHead → Option Nat) (kills : Nat → List Nat) (heads : List AHead) (h : AHead) (hm : h ∈ heads)
+    (hun : ∀ g ∈ heads, build g ≠ none → h.flow ∉ kills g.flow) : h ∈ (guardHeads build kills heads).1 := by
+  simp only [guardHeads, List.mem_filter]
+  refine ⟨hm, ?_⟩
+  have : h.flow ∉ (failInvalid build kills heads [] []).1 := by
+    intro hc
+    rcases failInvalid_stopped_origin build kills heads [] [] h.flow hc with h0 | ⟨g, hg, hb, hk⟩
+    · simp at h0
+    · exact hun g hg hb hk
+  simpa using this
+
+/-- no invalid head ⇒ the guard changes nothing (the conflict resolution sees the same heads; no report) -/
+theorem guardHeads_all_valid (build : AHead → Option Nat) (kills : Nat → List Nat) (heads : List AHead) (hv : ∀ h ∈ heads, build h = none) :
+    guardHeads build kills heads = (heads, []) := by
+  have key : ∀ (hs : List AHead) (st er : List Nat), (∀ h ∈ hs, build h = none) → failInvalid build kills hs st er = (st, er) := by
+    intro hs
+    induction hs with
+    | nil => intro st er _; rfl
+    | cons x rest ih =>
+      intro st er hv
+      simp only [failInvalid, hv x List.mem_cons_self]
+      split <;> exact ih st er (fun h hm => hv h (List.mem_cons_of_mem _ hm))
+  simp [guardHeads, key heads [] [] hv]
+
+/-- at most one report per head whose action event cannot be built -/
+theorem guardHeads_reports_le (build : AHead → Option Nat) (kills : Nat → List Nat) (heads : List AHead) :
+    (guardHeads build kills heads).2.length ≤ (heads.filter fun h => (build h).isSome).length := by
+  have := failInvalid_errs_le build kills heads [] []
+  simpa [guardHeads] using this
+
+/-- non-vacuity (kernel-evaluated): the faulty flow 1 (invalid action event, class 7) with its child flow 2, and the bystander flow 3 —
+    the bystander's head survives in place, one report is queued, the faulty flow's and its child's heads are gone -/
+example : guardHeads (fun h => if h.flow = 1 then some 7 else none) (fun f => if f = 1 then [1, 2] else [f]) [⟨10, 3⟩, ⟨11, 1⟩, ⟨12, 2⟩, ⟨13, 3⟩]
+    = ([⟨10, 3⟩, ⟨13, 3⟩], [7]) := by decide
+
+example : ∀ f, f ∈ (fun f => if f = 1 then [1, 2] else [f]) f := by
+  intro f; by_cases h : f = 1 <;> simp [h]
+
+/-- the hypothesis of `guardHeads_bystander_kept` holds of the bystander above -/
+example : ∀ g ∈ [(⟨10, 3⟩ : AHead), ⟨11, 1⟩, ⟨12, 2⟩, ⟨13, 3⟩], (fun h : AHead => if h.flow = 1 then some 7 else none) g ≠ none →
+    (3 : Nat) ∉ (fun f => if f = 1 then [1, 2] else [f]) g.flow := by decide
+
+end NemoVerif.C10.Convert
